@@ -214,11 +214,21 @@ func mutate(m *c.ModSpec, rng *c.Rng) ([]byte, string) { return mutateBin(m.Enco
 // mutateBin: m is nil for modules of the second generator (operators that need the ModSpec are replaced)
 func mutateBin(bin []byte, m *c.ModSpec, rng *c.Rng) ([]byte, string) {
 	secs := splitSections(bin)
-	op := rng.Intn(18)
+	op := rng.Intn(20)
 	if m == nil && op == 14 {
 		op = 3 + rng.Intn(6)
 	}
 	switch op {
+	case 18, 19: // an index inside the element section (function / global indices of items, table index, segment kind)
+		k := pickSec(secs, rng, 9)
+		if secs[k].id != 9 || len(secs[k].body) < 3 {
+			return bin, "noop"
+		}
+		b := secs[k].body
+		p := 1 + rng.Intn(len(b)-1)
+		old := b[p]
+		b[p] = byte(rng.Pick([]uint64{uint64(old) + 1, uint64(old) + 7, 0x7f, 0x3f, 100, uint64(rng.Intn(16))}))
+		return join(secs), fmt.Sprintf("elem-index(%d)", int(b[p])-int(old))
 	case 16, 17: // an immediate byte of a function body re-encoded as a longer (non-canonical) LEB128 of the same value, sizes kept consistent
 		k := pickSec(secs, rng, 10)
 		if secs[k].id != 10 {
@@ -517,6 +527,8 @@ func randomInput(rng *c.Rng) ([]byte, string) {
 func probeInputs() []Input {
 	u := c.U32
 	mk := func(name string, b []byte) Input { return Input{Class: "probe", Mut: name, Hex: hex.EncodeToString(b)} }
+	// directed inputs that are also instantiated and called when an engine accepts them (class "mut": judged like mutants)
+	mkrun := func(name string, b []byte) Input { return Input{Class: "mut", Mut: "directed:" + name, Hex: hex.EncodeToString(b)} }
 	typeSec := c.Sec(1, c.Vec(c.FT(nil, nil)))
 	funcSec := c.Sec(3, c.Vec(u(0)))
 	localsMod := func(n uint32) []byte {
@@ -541,6 +553,28 @@ func probeInputs() []Input {
 		// guarded since 14ba147: must now be cheap
 		mk("type-count-2^24-guarded", c.Cat(header, c.Sec(1, u(1<<24)))),
 		mk("element-init-count-2^24-guarded", c.Cat(header, c.Sec(9, c.Cat(u(1), u(0), c.I32Const(0), []byte{0x0b}, u(1<<24))))),
+		// one type with 100,000 parameters: decoding must stay linear in the input (was quadratic: F58)
+		mk("type-100000-params", func() []byte {
+			ps := make([]byte, 100000)
+			for i := range ps {
+				ps[i] = 0x7f
+			}
+			return c.Cat(header, c.Sec(1, c.Cat(u(1), []byte{0x60}, u(100000), ps, u(0))))
+		}()),
+		// (global i64 (i64.const 0x12345678)) (table 1 funcref) (elem (i32.const 0) funcref (item (global.get 0)))
+		// (func (export "f0") (call_indirect (i32.const 0))): the element item names a global that is not a reference:
+		// must be rejected (was accepted and the call dereferenced 0x12345678+16: F57)
+		mkrun("elem-item-global-get-of-i64-global", c.Cat(header, typeSec, funcSec, c.Sec(4, c.Vec([]byte{0x70, 0x00, 0x01})),
+			c.Sec(6, c.Vec(c.Cat([]byte{0x7e, 0x00}, c.I64Const(0x12345678), []byte{0x0b}))),
+			c.Sec(7, c.Vec(c.Export("f0", 0, 0))),
+			c.Sec(9, c.Vec(c.Cat(u(4), c.I32Const(0), []byte{0x0b}, c.Vec([]byte{0x23, 0x00, 0x0b})))),
+			c.Sec(10, c.Vec(c.Code(nil, c.I32Const(0), []byte{0x11, 0x00, 0x00}))))),
+		// the same through an i32 global and a PASSIVE segment + table.init
+		mkrun("elem-item-global-get-of-i32-global-passive", c.Cat(header, typeSec, funcSec, c.Sec(4, c.Vec([]byte{0x70, 0x00, 0x01})),
+			c.Sec(6, c.Vec(c.Cat([]byte{0x7f, 0x00}, c.I32Const(0x1234568), []byte{0x0b}))),
+			c.Sec(7, c.Vec(c.Export("f0", 0, 0))),
+			c.Sec(9, c.Vec(c.Cat(u(5), []byte{0x70}, c.Vec([]byte{0x23, 0x00, 0x0b})))),
+			c.Sec(10, c.Vec(c.Code(nil, c.I32Const(0), c.I32Const(0), c.I32Const(1), []byte{0xfc, 12, 0, 0}, c.I32Const(0), []byte{0x11, 0x00, 0x00}))))),
 	}
 }
 
